@@ -5,45 +5,19 @@ open Mustache Mustache.Model Mustache.Driver.World Mustache.Proofs.WorldsId
 
 @[simp] theorem issue_w (s : St) (h : Handle) : (s.issue h).1.w = s.w := rfl
 
-set_option maxHeartbeats 1000000 in
 theorem exec_wid (s : St) (t : Nat) (ws : List String) : (exec s t ws).1.w.worldId = s.w.worldId := by
   unfold exec
-  simp -zeta only []
-  repeat' split
-  all_goals (try rfl)
-  all_goals (try simp)
+  split
+  · rfl
+  · split <;> rfl
   · split
     · rfl
-    · simp only [issue_w, create_wid]
-      rw [foldl3_wid]
-      intro acc tok
-      split <;> simp
-  · split
-    · simp only [issue_w]
-      rw [foldl_wid]
-      · simp
-      · intro acc p; simp
-    · simp
-  · split
-    · simp only []
-      rw [foldl_wid', foldl_wid]
-      · intro acc p; simp
-      · intro acc c; simp
-    · simp
-  · split
-    · rename_i w d heq
-      have := congrArg (fun r => r.1.worldId) heq
-      simp only [clone_wid] at this
-      simpa using this.symm
-    · rename_i w heq
-      have := congrArg (fun r => r.1.worldId) heq
-      simp only [clone_wid] at this
-      simpa using this.symm
-  · split <;> simp
-  · split <;> rfl
+    · rename_i op _
+      simp -zeta only []
+      have h := Mustache.Proofs.WorldsId.step_wid catalogue s.w op
+      split <;> first | exact h | (simp only [issue_w]; exact h)
 
-
-theorem step_wid (s : St) (line : String) (hd : words line ≠ ["dump"]) (hw : ∀ n, words line ≠ ["worldid", n]) :
+theorem line_wid (s : St) (line : String) (hd : words line ≠ ["dump"]) (hw : ∀ n, words line ≠ ["worldid", n]) :
     (step s line).1.w.worldId = s.w.worldId := by
   unfold step
   split
@@ -76,6 +50,6 @@ theorem lineEffect_wid (side : St) (line : String) (wm : WM) :
   · rfl
   · rfl
   · rename_i h1 h2
-    exact step_wid { side with w := wm } line h1 (fun n hn => h2 n hn)
+    exact line_wid { side with w := wm } line h1 (fun n hn => h2 n hn)
 
 end Mustache.Proofs.WorldsDriver
